@@ -27,6 +27,10 @@ RULES = {
     "R-C06-b": "with the copy flag on, every array stored in the result is freshly allocated (shares no storage with the source)",
     "R-C06-c": "fit_dtype receives a minimum whenever its argument is a category value that may be negative",
     "R-C06-d": "column_stack calls shift_common(new_common) on a copy (FRESH receiver), not on a caller's index",
+    "R-C06-e": "sliced: per requested axis the decision table is None -> keep extent and coordinate; int k -> drop the axis, keep entries with coordinate == k; list L -> extent len(L), coordinate L.index(c), keep iff c in L; axes are addressed from 1",
+    "R-C06-f": "column_stack: column coordinates are offset by the number of columns already stacked (ii.shape[1] or 1 per input) and the result has that many columns and the inputs' row count",
+    "R-C06-g": "append: other's row ids are shifted by the receiver's OLD row count and the new row count is old + other's",
+    "R-C06-h": "reindexed: first coordinate -> mapping.get(c) (unmapped values kept), remaining coordinates unchanged, common value mapped the same way, shape unchanged",
 }
 MUTATORS = {"append", "update", "union_update", "intersection_update", "difference_update", "shift_common", "set_if"}
 NON_MUTATING = {"to_array", "to_dict", "copy", "filtered", "sliced", "slices1d", "reindexed", "collapsed", "get", "items", "common_rowids",
@@ -234,6 +238,222 @@ def rule_d(prog, rep):
     rep.floor("R-C06-d", 1, len(calls))
 
 
+def _appends(I, lid_filter=None):
+    return [e for e in I.events if e.kind == "call" and e["method"] == "append" and not e.stack and e["recv"] is not None and e["recv"].op == "alloc"]
+
+
+def _case(ev, elem):
+    """Which kind of `order` a guarded event belongs to: 'none' | 'int' | 'list' | None"""
+    none = isint = None
+    for c, pol in ev.guards:
+        if c.op == "cmp" and c.args[0] == "is" and c.args[1] == elem and c.args[2] == tm.NONE:
+            none = pol
+        if c.op == "cmp" and c.args[0] == "is" and c.args[1].op == "call" and tm.callee_name(c.args[1]) == "builtins.type" and c.args[1].args[1] == (elem,) and tm.dotted(c.args[2]) == "builtins.int":
+            isint = pol
+        if c.op == "call" and tm.callee_name(c) == "builtins.isinstance" and c.args[1][0] == elem and tm.dotted(c.args[1][1]) == "builtins.int":
+            isint = pol
+    if none is True:
+        return "none"
+    if none is False and isint is True:
+        return "int"
+    if none is False and isint is False:
+        return "list"
+    return None
+
+
+def rule_e(prog, rep):
+    fi = prog.func("iindexes", "iindex.sliced")
+    I = Interp(prog, hints.param_types_for("iindexes"), hints.FIELD_TYPES, inline=False)
+    I.run(fi)
+    where = fi.fq
+    self_t = tm.param("self")
+    loops = [(lid, li) for lid, li in I.loopinfo.items() if li.get("kind") == "for" and li.get("iter") is not None and li["iter"].op == "call" and tm.callee_name(li["iter"]) == "builtins.enumerate"]
+    if len(loops) != 2:
+        rep.undecided("R-C06-e", where, "sliced schema", "expected two enumerate(orders, 1) loops (shape pass, entry pass), found %d" % len(loops))
+        return
+    for lid, li in loops:
+        it = li["iter"]
+        start = it.args[1][1] if len(it.args[1]) > 1 else tm.kwarg(it, "start", tm.const(0))
+        rep.check(tm.is_const(start, 1), "R-C06-e", where, "axes are enumerated from 1 (axis 0 is the row axis)", "enumerate(orders, 1)", "enumeration starts at %s: requested axes are shifted" % tm.show(start),
+                  witness={"inputs": "idx.sliced([1, 0]) on a 2-D index slices the wrong axis"})
+    table = {}
+    problems = []
+    for lid, li in loops:
+        orders = li["iter"].args[1][0]
+        elem = tm.T("iter", orders, lid)
+        idx = tm.T("enumidx", orders, lid, tm.const(1))
+        in_entries = any(l != lid for e in I.events if lid in e.loops for l in e.loops)
+        passname = "entry" if in_entries else "shape"
+        for e in _appends(I):
+            if lid not in e.loops:
+                continue
+            case = _case(e, elem)
+            if case is None:
+                problems.append("append at line %d not under a recognised order test" % e.line)
+                continue
+            table[(passname, case)] = (e["args"][0], e, elem, idx)
+        for e in I.events:
+            if e.kind == "break" and lid in e.loops:
+                case = _case(e, elem)
+                table[(passname, case, "break")] = e
+    if problems:
+        rep.undecided("R-C06-e", where, "sliced schema", "; ".join(problems))
+        return
+
+    def expect(key, pred, okd, badd, wit):
+        got = table.get(key)
+        if got is None:
+            rep.violated("R-C06-e", where, "sliced: %s pass, order %s" % key[:2], "nothing is appended for this case: %s" % badd, witness=wit)
+            return
+        val, e, elem, idx = got
+        rep.check(pred(val, e, elem, idx), "R-C06-e", "%s@%d" % (where, e.line), "sliced: %s pass, order %s" % key[:2], okd, "%s (found %s)" % (badd, tm.show(val)[:50]), witness=wit)
+
+    shape = tm.T("attr", self_t, "shape")
+    expect(("shape", "none"), lambda v, e, el, ix: v == tm.T("sub", shape, ix), "extent kept: self.shape[axis]", "extent of an unsliced axis is not self.shape[axis]", {"inputs": "sliced(None, 0) on a 3-D index"})
+    expect(("shape", "list"), lambda v, e, el, ix: v.op == "call" and tm.callee_name(v) == "builtins.len" and v.args[1] == (el,), "extent = len(order)", "extent of a list-sliced axis is not len(order)", {"inputs": "sliced([2, 0])"})
+    rep.check(("shape", "int") not in table, "R-C06-e", where, "sliced: shape pass, order int", "axis dropped", "an integer order must drop the axis from the shape")
+    expect(("entry", "none"), lambda v, e, el, ix: v.op == "sub" and v.args[0].op == "dkey" and v.args[1] == ix, "coordinate kept", "coordinate of an unsliced axis is not copied", {"inputs": "sliced(None, 1)"})
+
+    def list_ok(v, e, el, ix):
+        coord = tm.T("sub", [x for x in tm.walk(v) if x.op == "dkey"][0], ix) if tm.contains(v, lambda x: x.op == "dkey") else None
+        okv = v.op == "call" and tm.callee_name(v) == ".index" and v.args[0].args[0] == el and coord is not None and v.args[1] == (coord,)
+        okg = any(c.op == "cmp" and c.args[0] == "in" and pol and c.args[1] == coord and c.args[2] == el for c, pol in e.guards)
+        return okv and okg
+
+    expect(("entry", "list"), list_ok, "new coordinate = order.index(coordinate), kept iff coordinate in order", "list order must map a coordinate to its position in the requested order, only when it is requested",
+           {"inputs": "sliced([2, 0]): column 2 must become column 0"})
+    rep.check(("entry", "int") not in table, "R-C06-e", where, "sliced: entry pass, order int", "coordinate dropped", "an integer order must drop the coordinate")
+    bi = table.get(("entry", "int", "break"))
+    okb = bi is not None and any(c.op == "cmp" and c.args[0] == "==" and not pol and c.args[1].op == "sub" and c.args[1].args[0].op == "dkey" for c, pol in bi.guards)
+    rep.check(okb, "R-C06-e", where, "sliced: integer order keeps exactly the entries whose coordinate equals it", "break when coord != order", "entries with another coordinate are not dropped",
+              witness={"inputs": "sliced(1) on a 2-D index returns rows of every column"})
+    bl = table.get(("entry", "list", "break"))
+    rep.check(bl is not None and any(c.op == "cmp" and c.args[0] == "in" and not pol for c, pol in bl.guards), "R-C06-e", where, "sliced: list order drops entries whose coordinate is not requested", "break when coord not in order", "unrequested slices are kept")
+    st = [e for e in I.events if e.kind == "store_sub" and not e.stack and e["value"].op == "dval"]
+    rep.check(len(st) == 1 and any(tm.contains(c, lambda x: x.op == "loopvar" and x.args[0] == "keep") or c == tm.TRUE for c, pol in st[0].guards if pol), "R-C06-e", where, "an entry is stored iff every requested axis kept it", "", "the store is not guarded by the keep flag")
+
+
+def rule_f(prog, rep):
+    fi = prog.func("iindexes", "column_stack")
+    I = Interp(prog, hints.param_types_for("iindexes"), hints.FIELD_TYPES, inline=False)
+    fr = I.run(fi)
+    where = fi.fq
+    st = [e for e in I.events if e.kind == "store_sub" and not e.stack and e["base"].op == "alloc"]
+    if len(st) != 2:
+        rep.undecided("R-C06-f", where, "column_stack schema", "expected two entry stores (2-D and 1-D inputs), found %d" % len(st))
+        return
+    ivar = None
+    for e in st:
+        key = e["index"]
+        two_d = any(c.op == "cmp" and c.args[0] == ">" and pol for c, pol in e.guards if tm.contains(c, lambda x: x.op == "attr" and x.args[1] == "shape"))
+        if key.op != "tuple" or len(key.args) != 2:
+            rep.undecided("R-C06-f", where, "column_stack key", "key is %s" % tm.show(key)[:50])
+            continue
+        k0, k1 = key.args
+        ok0 = k0.op == "sub" and k0.args[0].op == "dkey" and tm.is_const(k0.args[1], 0)
+        if two_d:
+            ok1 = k1.op == "binop" and k1.args[0] == "+" and k1.args[1].op == "sub" and k1.args[1].args[0].op == "dkey" and tm.is_const(k1.args[1].args[1], 1)
+            off = k1.args[2] if ok1 else None
+        else:
+            ok1 = True
+            off = k1
+        offs_ok = off is not None and any(x.op == "loopvar" and x.args[0] == "i" for x in tm.walk(off)) or (off is not None and tm.is_const(off, 0))
+        rep.check(ok0 and ok1 and offs_ok, "R-C06-f", "%s@%d" % (where, e.line), "column_stack: %s input -> key (value, %s)" % ("2-D" if two_d else "1-D", "own column + offset" if two_d else "offset"),
+                  "", "key is %s" % tm.show(key)[:80], witness={"inputs": "column_stack([a2d, b1d]): b's column lands on one of a's"})
+        if off is not None:
+            for x in tm.walk(off):
+                if x.op == "loopvar" and x.args[0] == "i":
+                    ivar = x
+    if ivar is None:
+        rep.undecided("R-C06-f", where, "column offset", "running offset variable not found")
+        return
+    be = I.backedge.get(("i", ivar.args[1]))
+    incs = set()
+    for a in tm.alts(be) if be is not None else []:
+        if a.op == "binop" and a.args[0] == "+":
+            incs.add(tm.show(a.args[2]))
+    want = {"1"}
+    ok = be is not None and any("shape[1]" in x for x in incs) and "1" in incs and len(incs) == 2
+    rep.check(ok, "R-C06-f", where, "offset advances by the input's column count (shape[1]) or by 1 for a 1-D input", "increments: %s" % sorted(incs), "increments are %s" % sorted(incs),
+              witness={"inputs": "column_stack([a (3 columns), b]): b must become column 3"})
+    rets = [v for v, g in fr.returns]
+    okr = False
+    for v in rets:
+        for ev in I.events:
+            if ev.kind == "call" and ev["result"] == v and len(ev["args"]) == 3:
+                sh = ev["args"][2]
+                okr = sh.op == "tuple" and len(sh.args) == 2 and sh.args[0].op == "sub" and tm.is_const(sh.args[0].args[1], 0) and sh.args[0].args[0].op == "attr" and sh.args[0].args[0].args[1] == "shape" and tm.contains(sh.args[0].args[0].args[0], lambda x: x == tm.param("iindexes")) and tm.contains(sh.args[1], lambda x: x.op == "loopvar" and x.args[0] == "i" or x == tm.const(0))
+    rep.check(okr, "R-C06-f", where, "result shape = (row count of the inputs, total number of columns)", "", "result shape is not (rows, columns stacked)")
+
+
+def rule_g(prog, rep):
+    fi = prog.func("iindexes", "iindex.append")
+    I = Interp(prog, hints.param_types_for("iindexes"), hints.FIELD_TYPES, inline=False)
+    I.run(fi)
+    where = fi.fq
+    self_t, other = tm.param("self"), tm.param("other")
+    old_rows = tm.T("sub", tm.T("attr", self_t, "shape"), tm.const(0))
+    st = [e for e in I.events if e.kind == "store_sub" and e["base"] == self_t]
+    n = 0
+    for e in st:
+        for a in tm.alts(e["value"]):
+            shifted = [x for x in tm.walk(a) if x.op == "binop" and x.args[0] == "+" and (tm.contains(x.args[1], lambda y: y == other) or tm.contains(x.args[2], lambda y: y == other))]
+            if not shifted:
+                rep.violated("R-C06-g", "%s@%d" % (where, e.line), "append: rows taken from other are shifted", "other's row ids are stored without adding the receiver's row count",
+                             witness={"inputs": "append to a non-empty index: the new rows overwrite rows 0.."})
+                continue
+            x = shifted[0]
+            sc = x.args[2] if tm.contains(x.args[1], lambda y: y == other) else x.args[1]
+            n += 1
+            rep.check(tm.contains(sc, lambda y: y == old_rows) and not tm.contains(sc, lambda y: y == other), "R-C06-g", "%s@%d" % (where, e.line), "append: shift = receiver's row count before the append",
+                      "", "shift is %s" % tm.show(sc)[:60], witness={"inputs": "append an index with a different row count"})
+    sh = [e for e in I.events if e.kind == "store_attr" and e["base"] == self_t and e["attr"] == "shape"]
+    oks = False
+    if len(sh) == 1:
+        v = sh[0]["value"]
+        first = v.args[0] if v.op == "tuple" else (v.args[1].args[0] if (v.op == "binop" and v.args[0] == "+" and v.args[1].op == "tuple" and len(v.args[1].args) == 1) else None)
+        restok = v.op == "tuple" or v.args[2] == tm.T("sub", tm.T("attr", self_t, "shape"), tm.T("slice", tm.const(1), tm.NONE, tm.NONE))
+        orows = tm.T("sub", tm.T("attr", other, "shape"), tm.const(0))
+        oks = restok and first in (tm.T("binop", "+", old_rows, orows), tm.T("binop", "+", orows, old_rows))
+    rep.check(oks, "R-C06-g", where, "append: new shape = (old rows + other's rows,) + remaining extents", "", "shape after append is %s" % (sh and tm.show(sh[0]["value"])[:80]))
+    # the shift is computed BEFORE the shape changes
+    oko = bool(sh) and all(e.seq < sh[0].seq for e in st)
+    rep.check(oko, "R-C06-g", where, "append: all rows are shifted before the shape is updated", "", "shape is updated before the stores: the shift would use the new row count")
+    rep.floor("R-C06-g", 8, n)
+
+
+def rule_h(prog, rep):
+    fi = prog.func("iindexes", "iindex.reindexed")
+    I = Interp(prog, hints.param_types_for("iindexes"), hints.FIELD_TYPES, inline=False,
+               oracle=lambda t: True if (t.op == "call" and tm.callee_name(t) == "builtins.hasattr") else None)
+    fr = I.run(fi)
+    where = fi.fq
+    self_t = tm.param("self")
+    st = [e for e in I.events if e.kind == "store_sub" and not e.stack and e["base"].op == "alloc" and all(a.op == "alloc" and a.args[0] == "list" for a in tm.alts(e["value"]))]
+    if len(st) != 1:
+        rep.undecided("R-C06-h", where, "reindexed schema", "expected one gather store, found %d" % len(st))
+        return
+    key = st[0]["index"]
+    ok = False
+    for a in tm.alts(key):
+        if a.op == "binop" and a.args[0] == "+" and a.args[1].op == "tuple" and len(a.args[1].args) == 1:
+            nc, rest = a.args[1].args[0], a.args[2]
+            okrest = rest.op == "sub" and rest.args[0].op == "dkey" and rest.args[1] == tm.T("slice", tm.const(1), tm.NONE, tm.NONE)
+            nc_alts = tm.alts(nc)
+            okmap = any(x.op == "call" and tm.callee_name(x) == ".get" and tm.param("mapping") in tm.alts(x.args[0].args[0]) and x.args[1] and x.args[1][0].op == "sub" and tm.is_const(x.args[1][0].args[1], 0) for x in nc_alts)
+            okkeep = any(x.op == "sub" and x.args[0].op == "dkey" and tm.is_const(x.args[1], 0) for x in nc_alts) or any(x.op == "call" and tm.callee_name(x) == ".get" and len(x.args[1]) == 2 for x in nc_alts)
+            ok = okrest and okmap and okkeep
+    rep.check(ok, "R-C06-h", "%s@%d" % (where, st[0].line), "reindexed: key = (mapping.get(c0) or c0,) + coords[1:]", "", "new key is %s" % tm.show(key)[:100],
+              witness={"inputs": "2-D index: reindexed({1: 7}) must keep every entry's column"})
+    ctor = [e for e in I.events if e.kind == "call" and e["result"] is not None and any(a.op == "alloc" and a.args[0] == "obj:iindex" for a in tm.alts(e["result"])) and len(e["args"]) == 3]
+    okc = False
+    for e in ctor:
+        c, sh = e["args"][1], e["args"][2]
+        okc = sh == tm.T("attr", self_t, "shape") and c.op == "call" and tm.callee_name(c) == ".get" and c.args[1] and c.args[1][0] == tm.T("attr", self_t, "common") and len(c.args[1]) == 2 and c.args[1][1] == tm.T("attr", self_t, "common")
+    rep.check(okc, "R-C06-h", where, "reindexed: result has the same shape and common = mapping.get(common, common)", "", "constructor arguments differ",
+              witness={"inputs": "reindexed({0: 9}) on an index with common 0: the implicit rows must read 9"})
+
+
 def main(tier):
     rep = core.Report("C06", level="other", rules=RULES, tier=tier,
                       declined="every sequence of index operations matches the NumPy model on the dense array (histories x values): not decidable by static analysis in reach; e.g. the collapsed() result for a precedence list that omits a present value is a value-level defect this check cannot see")
@@ -243,6 +463,10 @@ def main(tier):
     rule_b(prog, rep)
     rule_c(prog, rep)
     rule_d(prog, rep)
+    rule_e(prog, rep)
+    rule_f(prog, rep)
+    rule_g(prog, rep)
+    rule_h(prog, rep)
     return rep.finish()
 
 
